@@ -65,6 +65,27 @@ def style_mappings(g):
             g.check(f"DFXP italic attribute read back with {sorted(d)}", (back.get("italics") is True) == flags[0], {"style": back})
     for k, (o, cl) in {"italics": ("<i>", "</i>"), "bold": ("<b>", "</b>"), "underline": ("<u>", "</u>"), "other": ("", "")}.items():
         g.check(f"WebVTT tag of {k}", list(VW._convert_style_to_text_tag(k)) == [o, cl], {})
+    # TTML's decoration is a list of tokens: underlined iff the token `underline` is among them (`noUnderline` is another token)
+    for value in ["underline", "noUnderline", "overline underline", "noUnderline lineThrough", "none", "lineThrough", "noUnderline overline",
+                  "underline lineThrough", "noLineThrough noUnderline", "underline noLineThrough noOverline"]:
+        back = DFXPReader()._convert_style(StubTag("span", {"tts:textDecoration": value}))
+        g.check(f"DFXP textDecoration {value!r}", (back.get("underline") is True) == ("underline" in value.split()), {"style": back})
+    for attr, val, key in (("tts:fontStyle", "normal", "italics"), ("tts:fontWeight", "normal", "bold"), ("tts:fontStyle", "italic", "italics"), ("tts:fontWeight", "bold", "bold")):
+        back = DFXPReader()._convert_style(StubTag("span", {attr: val}))
+        g.check(f"DFXP {attr}={val}", (back.get(key) is True) == (val in ("italic", "bold")), {"style": back})
+    # SAMI inline styles: every declaration counts, in whatever order they come (the alignment goes to the layout, the
+    # rest to the style)
+    decls = ["text-align:right", "font-style:italic", "font-weight:bold", "text-decoration:underline", "color:red"]
+    for perm in itertools.permutations(decls, 3):
+        r = SR()
+        r.first_alignment = None
+        try:
+            back = r._translate_style({}, list(perm))
+        except Exception as e:          # (a reader object that needs more set-up than this is not what the clause is about)
+            g.undecided(f"SAMI inline style {perm}", repr(e)) if hasattr(g, "undecided") else None
+            continue
+        want = {k: True for k, d_ in (("italics", "font-style:italic"), ("bold", "font-weight:bold"), ("underline", "text-decoration:underline")) if d_ in perm}
+        g.check(f"SAMI inline style {';'.join(perm)}", {k: v for k, v in back.items() if k in KEYS} == want, {"style": back})
     tagd = StubTag("span", {"tts:fontWeight": "bold", "tts:textDecoration": "underline noLineThrough", "tts:fontStyle": "italic"})
     g.check("DFXP reader understands bold / underline / italic attributes",
             DFXPReader()._convert_style(tagd) == {"bold": True, "underline": True, "italics": True}, {})
@@ -327,6 +348,34 @@ def bounded(ctx, b):
             ok = all(okk for _, okk in got) and sorted(marked) == sorted(want_italic)
             return ok, {"spans": combo, "italic_characters": marked, "expected": want_italic, "doc": doc[-400:]}
         b.guard(("span-layouts", combo), layouts, sample={"spans": combo})
+    # a span that opens with one or two line breaks and lies in another layout than the text before it: the opening tags
+    # and the breaks go to the cue of the span's text
+    from pycaption.geometry import Layout as _L, Point as _P, Size as _S, UnitEnum as _U
+    la_, lb_ = _L(origin=_P(_S(10, _U.PERCENT), _S(10, _U.PERCENT))), _L(origin=_P(_S(20, _U.PERCENT), _S(70, _U.PERCENT)))
+    for nbreaks, style in itertools.product([1, 2], [{"italics": True}, {"italics": True, "bold": True}]):
+        def after_break(nbreaks=nbreaks, style=style):
+            nodes = [T("before", la_), ST(True, dict(style), lb_)] + [BR(lb_)] * nbreaks + [T("inside", lb_), ST(False, dict(style), lb_), T("after", lb_)]
+            out = shared(WebVTTWriter).write(CaptionSet({"en-US": CaptionList([Caption(0, 10 ** 6, nodes)])}))
+            got = webvtt_flags(out)
+            marked = "".join(ch for fl, _ in got for ch, f in fl if f and f[0])
+            return all(okk for _, okk in got) and marked == "inside", {"cues": len(got), "italic_characters": marked, "expected": "inside", "doc": out[-300:]}
+        b.guard(("span-opens-with-breaks", nbreaks, tuple(style)), after_break, sample={"breaks_after_the_opening_style_node": nbreaks, "style": style})
+    # a caption styled as a WHOLE (italic paragraph) whose text lies in two layouts: every cue written for it carries the
+    # style, with its own balanced pair of tags
+    for combo in [("plain_a", "plain_b"), ("plain_b", "plain_a", "plain_b"), ("plain_a", "bold_b")]:
+        def whole(combo=combo):
+            import warnings
+            warnings.filterwarnings("ignore")
+            doc_ = tmpl.replace('<p begin="00:00:00.000"', '<p tts:fontStyle="italic" begin="00:00:00.000"').replace("%s", "".join(spans[k] for k in combo))
+            cs2 = shared(DFXPReader).read(doc_)
+            out = shared(WebVTTWriter).write(cs2)
+            got = webvtt_flags(out)
+            words_ = {"plain_a": "one", "plain_b": "three", "bold_b": "five"}
+            want_italic = "".join(words_[k] for k in combo)
+            marked = "".join(ch for fl, _ in got for ch, f in fl if f and f[0])
+            return all(okk for _, okk in got) and len(got) >= 2 and sorted(marked) == sorted(want_italic), {
+                "spans": combo, "cues": len(got), "italic_characters": marked, "expected": want_italic, "doc": out[-400:]}
+        b.guard(("caption-level-style", combo), whole, sample={"paragraph": "italic", "spans": combo})
     # every caption returned by any reader has balanced style nodes
     readers = {"dfxp": DFXPReader, "sami": SAMIReader, "scc": SCCReader}
     for fmt, docs in samples.all_docs().items():
